@@ -7,9 +7,9 @@ import json, os, re, subprocess, sys, time
 
 ROOT = os.path.dirname(os.path.dirname(os.path.abspath(__file__)))
 TARGETS = {
-    "C01-5A": ["C01", "C02", "C17"], "C01-5B": ["C01", "C02", "C17"], "C04-5A": ["C04", "C12", "C09"], "C04-5B": ["C04", "C12", "C09"], "C07-5A": ["C07", "C05"], "C07-5B": ["C07", "C05"],
-    "C12-5A": ["C12", "C15"], "C12-5B": ["C12", "C15"], "C14-5A": ["C14"], "C14-5B": ["C14"], "C16-5A": ["C16", "C06"], "C16-5B": ["C16", "C06"],
-    "C18-5A": ["C18", "C17"], "C18-5B": ["C18", "C17"], "C19-5A": ["C19", "C02"], "C19-5B": ["C19", "C02"],
+    "C01-5A": ["C01", "C02"], "C01-5B": ["C01", "C16"], "C04-5A": ["C04", "C14"], "C04-5B": ["C04", "C09"], "C07-5A": ["C07"], "C07-5B": ["C07"],
+    "C12-5A": ["C12"], "C12-5B": ["C12"], "C14-5A": ["C14"], "C14-5B": ["C14"], "C16-5A": ["C16"], "C16-5B": ["C16"],
+    "C18-5A": ["C18"], "C18-5B": ["C18"], "C19-5A": ["C19", "C15"], "C19-5B": ["C19"],
     "revert-512c15e": ["C04", "C07"],
     "revert-41c2892": ["C16"],
     "C04-4A": ["C04", "C17"], "C04-4B": ["C04", "C07"], "C07-4A": ["C07", "C05"], "C07-4B": ["C07", "C06"], "C08-4A": ["C08", "C07"], "C08-4B": ["C08", "C06"],
